@@ -85,6 +85,25 @@ def innermost_rig_frame(exc):
     return found
 
 
+def raised_by(exc):
+    """Who raised an exception that escaped an engine: walking from the
+    innermost frame outwards, skipping library frames, the first frame that is
+    rig's ('rig', where) or the harness's ('harness', where)."""
+    frames = []
+    tb = exc.__traceback__
+    while tb is not None:
+        frames.append(tb.tb_frame.f_code)
+        tb = tb.tb_next
+    for code in reversed(frames):
+        fn = code.co_filename
+        if fn.startswith(REPO + "/"):
+            return "rig", "%s:%s" % (os.path.relpath(fn, REPO), code.co_name)
+        if fn.startswith(VERIF + "/"):
+            return "harness", "%s:%s" % (os.path.relpath(fn, VERIF),
+                                         code.co_name)
+    return "other", "?"
+
+
 def execute(engine, prop, tier, tape, index=0, known=None, keep_trace=400):
     """Run the engine once on ``tape``.  Never raises for a violation."""
     world = World(tape, keep_trace=keep_trace)
@@ -107,8 +126,19 @@ def execute(engine, prop, tier, tape, index=0, known=None, keep_trace=400):
                 "TERMINATION", "run did not finish: %s" % (a,),
                 {"kind": a.kind})
     except Exception as e:   # noqa
-        out.harness_error = "".join(traceback.format_exception(
-            type(e), e, e.__traceback__))[-4000:]
+        who, where = raised_by(e)
+        if who == "rig" and world.violation is None:
+            # rig itself raised where the harness (which only makes calls
+            # that are legal at that point) expected none: on the unchanged
+            # tree this never happens
+            world.note_violation(
+                "E", "unexpected %s raised by rig (%s): %s"
+                % (type(e).__name__, where, str(e)[:100]),
+                kind="escaped-exception", exc=type(e).__name__,
+                where=where.split(":")[-1])
+        elif who != "rig":
+            out.harness_error = "".join(traceback.format_exception(
+                type(e), e, e.__traceback__))[-4000:]
     v = world.violation
     out.violation = None if v is None else {
         "monitor": v.monitor, "message": v.message, "signature": v.signature}
